@@ -37,6 +37,9 @@ type c09Case struct {
 	// Repeat > 1: the case is executed that many times in a row in one process and fails if any execution does (used
 	// for verdicts that depend on what the process executed before)
 	Repeat int `json:"repeat,omitempty"`
+	// Again: the variable is announced twice before the journal instruction and once more after it (compiled code
+	// announces a variable on every write); the recorded value must still be found under its name and its slot
+	Again bool `json:"again,omitempty"`
 }
 
 // c09RunRepeated executes the case c.Repeat times (at least once); the first failing verdict is returned.
@@ -126,10 +129,16 @@ func (c *c09Case) build() (cs *world.Case, expect []byte, valid bool) {
 		a.Op(s.Op)
 	}
 	emit(prog.Steps[0])
+	if c.Again {
+		emit(prog.Steps[0])
+	}
 	if c.Fresh {
 		a.Push32(c.Word).PushU(slot).Op(asm.SSTORE)
 	}
 	emit(prog.Steps[1])
+	if c.Again {
+		emit(prog.Steps[0])
+	}
 	a.Push(1).Push(0).Op(asm.MSTORE).Push(32).Push(0).Op(asm.RETURN)
 	code := a.Bytes()
 
@@ -353,6 +362,10 @@ func c09ForEach(w *fw.W, fn func(c *c09Case)) {
 							}
 							fn(&c09Case{Kind: "value", Fork: f, Via: v.Via, Static: v.Static, Fresh: v.Fresh, Slot: hb(slot), Off: hb(off), Width: hb(width), Word: word,
 								Note: fmt.Sprintf("value %s via=%s static=%v fresh=%v slot=%s off=%s width=%s word=%x", f, v.Via, v.Static, v.Fresh, slot.Hex(), off.Hex(), width.Hex(), word[:])})
+							if v.Via == "direct" && !v.Static && !v.Fresh && wi == 0 && si < 2 {
+								fn(&c09Case{Kind: "value", Fork: f, Via: v.Via, Again: true, Slot: hb(slot), Off: hb(off), Width: hb(width), Word: word,
+									Note: fmt.Sprintf("value %s via=%s announced again slot=%s off=%s width=%s word=%x", f, v.Via, slot.Hex(), off.Hex(), width.Hex(), word[:])})
+							}
 						}
 					}
 				}
@@ -371,6 +384,10 @@ func c09ForEach(w *fw.W, fn func(c *c09Case)) {
 						}
 						fn(&c09Case{Kind: "ref", Fork: f, Via: v.Via, Static: v.Static, Fresh: v.Fresh, Slot: hb(slot), Data: data,
 							Note: fmt.Sprintf("ref %s via=%s static=%v fresh=%v slot=%s len=%d content=%s", f, v.Via, v.Static, v.Fresh, slot.Hex(), n, name)})
+						if v.Via == "direct" && !v.Static && !v.Fresh && name == "distinct" && si < 2 {
+							fn(&c09Case{Kind: "ref", Fork: f, Via: v.Via, Again: true, Slot: hb(slot), Data: data,
+								Note: fmt.Sprintf("ref %s via=%s announced again slot=%s len=%d", f, v.Via, slot.Hex(), n)})
+						}
 					}
 				}
 				// invalid and unusual head words
@@ -404,7 +421,7 @@ func init() {
 		ID:        "C09",
 		Level:     "model_checking",
 		Technique: "complete enumeration of (storage word, offset, width) and (string length, content pattern, slot) products, each journaled by a generated program on the real interpreter (direct, DELEGATECALL, CALLCODE, static, value written just before), compared with a reference Solidity storage-layout decoder",
-		Rule: "value journal: 5 words x every (offset, width) in ([0,34] + {256, 2^64-1, 2^64, 2^256-1})^2 x 7 slots (small, 2^64, hashed, hashed with leading zero byte) x variants {direct, static, SSTORE-just-before, via DELEGATECALL, via CALLCODE with fresh store, static+DELEGATECALL}; reference journal: every length 0..130 x {distinct, leading zeros, all zero, trailing zero} x slots x variants + 10 invalid/unusual head words + every length 33..130 at 8 slots whose data-slot base ends in fd/fe/ff/ffff/fffe/feff/fffffe/ffffff (the slot counter carries over 1-3 bytes). The code account of the DELEGATECALL/CALLCODE variants holds complemented words at the same slots. Oracle: recorded bytes (by name and by slot) == reference decoder applied to the executing contract's storage at the journal step; invalid field/encoding => frame fails and nothing is recorded. non-trivial = distinct cases whose operands/encoding are valid (a value must be recorded)",
+		Rule: "value journal: 5 words x every (offset, width) in ([0,34] + {256, 2^64-1, 2^64, 2^256-1})^2 x 7 slots (small, 2^64, hashed, hashed with leading zero byte) x variants {direct, static, SSTORE-just-before, via DELEGATECALL, via CALLCODE with fresh store, static+DELEGATECALL}; reference journal: every length 0..130 x {distinct, leading zeros, all zero, trailing zero} x slots x variants + 10 invalid/unusual head words + every length 33..130 at 8 slots whose data-slot base ends in fd/fe/ff/ffff/fffe/feff/fffffe/ffffff (the slot counter carries over 1-3 bytes). The code account of the DELEGATECALL/CALLCODE variants holds complemented words at the same slots. Each direct case over the first two slots also with the variable announced twice before and once after the journal instruction. Oracle: recorded bytes (by name and by slot) == reference decoder applied to the executing contract's storage at the journal step; invalid field/encoding => frame fails and nothing is recorded. non-trivial = distinct cases whose operands/encoding are valid (a value must be recorded)",
 		Assumptions: []string{"strings longer than 130 bytes and storage words outside the 5-word alphabet are not covered", "quick tier thins slots/words for the indirect variants (bounds in evidence)"},
 		Bounds: func(t string) map[string]any {
 			return map[string]any{"offset_width_values": 39, "string_lengths": map[string]string{"quick": "0..130", "thorough": "0..300"}[t], "slots": 7, "forks": map[string]int{"quick": 1, "thorough": 4}[t]}
